@@ -376,6 +376,13 @@ func C04(c *core.Ctx) {
 	c.Import(C10, "R4.16", "a completed message can stay in the partial-message store (its removal is not on every path from the completion): a message whose payload fails to decode leaves state behind", 1, func(k string) bool {
 		return strings.HasPrefix(k, "R10.3:completed-message-removed")
 	})
+	// R4.19: a frame whose FragIndex is not below its FragCount is dropped before anything of
+	// the partial-message store is touched: reassembly evicts and creates entries for an
+	// unknown message before it looks at the slot, so a frame that is refused there has
+	// already changed forwarder state
+	c.Import(C10, "R4.19", "a received frame reaches reassembly with an unchecked FragIndex/FragCount: the store of partial messages is evicted and extended for a frame that is then refused (state changes on a frame that fails to decode), or a slot outside the message is addressed", 1, func(k string) bool {
+		return strings.HasPrefix(k, "R10.5:reassembly-bounds")
+	})
 	c.Import(C03, "R4.11", "a wire with two empty segments in a row (which the no-copy encoder emits for an empty content buffer) makes the segmented reader index out of range: ReadData / ReadPacket panic", 1, func(k string) bool {
 		return strings.HasPrefix(k, "R3.6:segment-advance")
 	})
